@@ -1,38 +1,54 @@
 #!/bin/sh
-# run every seeded change under /verif/seeded through the quick check of its property
-# (applies the patch to /repo, runs the check, reverts); writes seeded/RESULTS.md
+# Run every seeded change under /verif/seeded through the check of its property and write
+# seeded/RESULTS.md. Works on scratch copies (git worktrees of the committed /verif and of
+# /repo's HEAD under /tmp/seedrun, removed afterwards), so neither /repo nor the live /verif
+# is touched while it runs: the scratch engine's path dependencies are pointed at the scratch
+# repository, each patch is applied there, the check is run, the patch is reverted.
 # usage: tools/run_seeded.sh [quick|thorough] [id-glob]
 TIER="${1:-quick}"; GLOB="${2:-*}"
-cd /verif
-git -C /repo diff --quiet || { echo "/repo is dirty"; exit 9; }
-OUT=seeded/RESULTS.md
-echo "# seeded changes vs. ./check $TIER ($(date -u +%Y-%m-%dT%H:%MZ), /repo $(git -C /repo rev-parse --short HEAD), /verif $(git rev-parse --short HEAD))" > $OUT
-echo "" >> $OUT
-echo "| seeded change | property | exit | first violation class |" >> $OUT
-echo "|---|---|---|---|" >> $OUT
+S=/tmp/seedrun
+rm -rf "$S"; git -C /repo worktree prune; git -C /verif worktree prune
+mkdir -p "$S"
+git -C /repo worktree add --detach "$S/repo" HEAD >/dev/null 2>&1 || { echo "cannot create repo worktree"; exit 9; }
+git -C /verif worktree add --detach "$S/verif" HEAD >/dev/null 2>&1 || { echo "cannot create verif worktree"; exit 9; }
+sed -i "s|\"/repo/|\"$S/repo/|g" "$S/verif/streamsim/Cargo.toml"
+cp /repo/Cargo.lock "$S/verif/streamsim/Cargo.lock" 2>/dev/null
+OUT=/verif/seeded/RESULTS.md
+TMP="$S/results.md"
+echo "# seeded changes vs. ./check $TIER ($(date -u +%Y-%m-%dT%H:%MZ), /repo $(git -C /repo rev-parse --short HEAD), /verif $(git -C /verif rev-parse --short HEAD))" > $TMP
+echo "" >> $TMP
+echo "Each change is applied to a scratch copy of /repo, the committed checks are run against it, the change is reverted." >> $TMP
+echo "" >> $TMP
+echo "| seeded change | property | exit | first violation class |" >> $TMP
+echo "|---|---|---|---|" >> $TMP
+cd "$S/verif"
+./check build >/dev/null 2>&1 || { echo "scratch engine does not build"; exit 2; }
+./check quick C19 > "$S/base.log" 2>&1 || { echo "scratch check is not clean on the unchanged tree"; tail -5 "$S/base.log"; exit 2; }
 miss=0
-for d in seeded/$GLOB/; do
+for d in /verif/seeded/$GLOB/; do
     id=$(basename "$d")
     [ -f "$d/patch.diff" ] || continue
     prop=$(python3 -c "import json;print(json.load(open('$d/meta.json'))['property'])")
     tier=$(python3 -c "import json;print(json.load(open('$d/meta.json')).get('check_tier','$TIER'))")
     expmiss=$(python3 -c "import json;print(json.load(open('$d/meta.json')).get('expected_miss',False))")
+    git -C "$S/repo" apply "$d/patch.diff" || { echo "| $id | $prop | patch does not apply | |" >> $TMP; continue; }
     if [ "$tier" = polars ]; then
-        /verif/tools/try_mutant_polars.sh "/verif/${d}patch.diff" "$prop" > /tmp/run_seeded.log 2>&1; rc=$?
-        sed -i 's/^check exit.*//' /tmp/run_seeded.log
+        ( cd streamsim && cargo build --release --features polars --target-dir target-polars 2>"$S/build.log" ) || { echo "polars build failed"; tail -5 "$S/build.log"; }
+        ./streamsim/target-polars/release/streamsim run --prop "$prop" --tier thorough --scale 0.25 --label "polars back end" \
+            --known "$S/verif/known_findings.jsonl" --replay-dir "$S/verif/replays" > "$S/run.log" 2>&1; rc=$?
     else
-        git -C /repo apply "/verif/${d}patch.diff" || { echo "| $id | $prop | patch does not apply | |" >> $OUT; continue; }
-        ./check "$tier" "$prop" > /tmp/run_seeded.log 2>&1; rc=$?
-        git -C /repo checkout -- .
+        ./check "$tier" "$prop" > "$S/run.log" 2>&1; rc=$?
     fi
-    cls=$(grep -m1 "^violation of\|process died" /tmp/run_seeded.log | sed 's/^violation of [A-Z0-9]* \[\([^]]*\)\].*/\1/' | cut -c1-80)
+    git -C "$S/repo" checkout -- .
+    cls=$(grep -m1 "^violation of\|process died" "$S/run.log" | sed 's/^violation of [A-Z0-9]* \[\([^]]*\)\].*/\1/' | cut -c1-80)
     note=""; [ "$tier" = polars ] && note=" (Polars build, thorough tier)"; [ "$expmiss" = True ] && note=" (documented miss, see meta.json)"
-    echo "| $id | $prop | $rc | $cls$note |" >> $OUT
+    echo "| $id | $prop | $rc | $cls$note |" >> $TMP
     echo "$id $prop exit=$rc $cls$note"
     if [ $rc -ne 1 ] && [ "$expmiss" != True ]; then miss=$((miss+1)); fi
 done
-echo "" >> $OUT
-echo "missed: $miss" >> $OUT
-# the unchanged tree must be quiet afterwards
-./check build >/dev/null 2>&1
+echo "" >> $TMP
+echo "missed (not counting documented misses): $miss" >> $TMP
+cp $TMP $OUT
+cd /
+git -C /repo worktree remove --force "$S/repo"; git -C /verif worktree remove --force "$S/verif"; rm -rf "$S"
 echo "missed: $miss"
